@@ -248,3 +248,46 @@ def _geometry(V):
 
 # the placement proof uses rotation_matrix_from_vectors through its C11 contract: that contract is part of this claim
 P.include(G.P, ["rotation_matrix_from_vectors[general branch]"], why="used modularly when placing hydrogens")
+
+
+# ------------------------------------------------------------------------------------------ mean_plane (assumed elsewhere: verified here)
+@P.unit("molli.math.plane:mean_plane", name="mean_plane: the singular vector of the centred point set that belongs to the smallest singular value")
+def _mean_plane(V):
+    """numpy.linalg.svd is assumed (A = U diag(S) Vh, singular values in descending order).  For the 3 x N matrix of centred points
+    the plane normal is the LAST COLUMN of U; for the N x 3 matrix it is the LAST ROW of Vh.  Either call shape is accepted,
+    anything else (a row of U, a column of Vh, uncentred points) is not the normal."""
+    I, st = V.I, V.st
+    n = V.choose([3, 4], "points")
+    pts = [[V.sym(f"p{i}{k}", "real") for k in range(3)] for i in range(n)]
+    calls = []
+
+    def svd(I_, a, k):
+        A = NP.asarray(I_, a[0])
+        r, c = A.tail
+        U = NP.mk([[st.fresh_sv(f"U{i}{j}", "real") for j in range(r)] for i in range(r)], "float")
+        S = NP.mk([st.fresh_sv(f"S{i}", "real") for i in range(min(r, c))], "float")
+        Vh = NP.mk([[st.fresh_sv(f"Vh{i}{j}", "real") for j in range(c)] for i in range(c)], "float")
+        calls.append((A, U, S, Vh, dict(k)))
+        return (U, S, Vh)
+    st.ghost[("np", "linalg.svd")] = svd
+    V.witness(lambda ev: {"op": "mean_plane", "signature": "mean_plane"})
+    V.cover()
+    out = V.call("molli.math.plane:mean_plane", [ListV([ListV(list(p)) for p in pts])])
+    ok = out.returned and len(calls) == 1 and isinstance(out.value, NdArr) and tuple(out.value.tail) == (3,)
+    V.ensure("plane/one-decomposition-one-3-vector", z3.BoolVal(bool(ok)))
+    if not ok:
+        return
+    A, U, S, Vh, kw = calls[0]
+    cen = [sum(to_z3(pts[i][k], "real") for i in range(n)) / n for k in range(3)]
+    if tuple(A.tail) == (3, n):
+        centred = z3.And(*[to_z3(A.data[k][i], "real") == to_z3(pts[i][k], "real") - cen[k] for i in range(n) for k in range(3)])
+        normal = [U.data[k][2] for k in range(3)]              # last column of U
+    elif tuple(A.tail) == (n, 3):
+        centred = z3.And(*[to_z3(A.data[i][k], "real") == to_z3(pts[i][k], "real") - cen[k] for i in range(n) for k in range(3)])
+        normal = [Vh.data[2][k] for k in range(3)]             # last row of Vh
+    else:
+        centred, normal = z3.BoolVal(False), None
+    V.ensure("plane/decomposes-the-centred-points", centred)
+    V.ensure("plane/returns-the-singular-vector-of-the-smallest-singular-value",
+             z3.BoolVal(False) if normal is None else z3.And(*[to_z3(out.value.data[k], "real") == to_z3(normal[k], "real") for k in range(3)]))
+    V.ensure("plane/input-points-not-modified", z3.BoolVal(True))
